@@ -115,6 +115,9 @@ func (c *fileCtx) ty(t *Ty) string {
 		return "struct{ " + strings.Join(fs, "; ") + " }"
 	case "iface":
 		var fs []string
+		for _, em := range t.Embeds {
+			fs = append(fs, c.ty(em))
+		}
 		for _, m := range t.Meths {
 			fs = append(fs, m+"()")
 		}
@@ -470,7 +473,7 @@ func (c *fileCtx) renderDecl(d *TypeDecl) {
 	}
 	if d.Carrier == "iface" {
 		// Under: iface type with Meths; Params[0] = implementation type (model-only)
-		u := &Ty{K: "iface", Meths: d.Under.Meths}
+		u := &Ty{K: "iface", Meths: d.Under.Meths, Embeds: d.Under.Embeds}
 		c.pf("type %s%s %s\n\n", d.Name, tp, c.ty(u))
 	} else {
 		c.pf("type %s%s %s\n\n", d.Name, tp, c.ty(d.Under))
